@@ -1,5 +1,6 @@
 import GoSup.Proofs.CompLts
 import GoSup.Proofs.CompLts2
+import GoSup.Proofs.CompLts3
 /-!
 # C09 / C11 / C18 — the composite under every interleaving of `Run`, `Reload()`, `Stop()`, cancellation and child events
 
@@ -223,5 +224,141 @@ example : ∃ s, run lts (init [])
     ∧ s.run = .returned .other ∧ s.rl = .idle ∧ s.reloads = 1 ∧ s.gens.all (Gen.done s) = true := by
   refine ⟨_, rfl, ?_⟩
   decide
+
+end GoSup.Props.C09L
+
+namespace GoSup.Props.C09L
+open GoSup.Core GoSup.CompLts
+open GoSup.CompSeq (CbRes Out)
+
+/-- the steps the library and well-behaved children can take once a `Stop()` is waiting (with some answer of the
+environment where one is needed: a callback that returns, a child `Stop()` that returns) -/
+def progressActs (s : St) : List Act :=
+  [.runEnter, .runBoot (.ok []), .runToRunning, .runSelStop, .runToStopping, .runStopBegin, .runStopEnd, .runFinish, .rlStopEnd]
+  ++ (match s.run with | .stopping (c :: _) => [.childStopRet c] | .failStopping (c :: _) _ => [.childStopRet c] | _ => [])
+  ++ (match s.rl with | .stopping _ (c :: _) => [.childStopRet c] | _ => [])
+
+/-- **With children whose `Stop()` never waits, `Stop()` is never stuck** (C09, third clause) — in every interleaving:
+in every reachable state in which a `Stop()` caller is waiting and `Run()` has not returned, `Run` can move on, or the
+holder of `runnablesMu` can.  Together with `c09_f1_reachable` / `c09_f1_stuck_forever` (lifecycle-style children can be
+stuck for ever) this locates the deadlock exactly: it needs a child whose `Stop()` waits for a `Run` that the overtaken
+reload has not started. -/
+theorem c09_stop_never_stuck_nonblocking {s : St} (h : Reach lts (init []) s) (hstop : s.stopReq = true)
+    (hnot : ∀ r, s.run ≠ .returned r) : ∃ a ∈ progressActs s, (step s a).isSome = true := by
+  obtain ⟨hi, _⟩ := inv12_reach h
+  have h4 := inv4_reach h
+  have hb : s.blockers = [] := by
+    have : ∀ t, Reach lts (init []) t → t.blockers = [] := by
+      intro t ht
+      induction ht with
+      | init => rfl
+      | @step u v a _ hs ih =>
+        have hbb : ∀ (t : St) (f : Bool) (c : List (Nat × Nat)), (boot t f c).blockers = t.blockers := by
+          intro t f c; unfold boot; split <;> rfl
+        have hcb : ∀ (t : St), (cancelLive t).blockers = t.blockers := by
+          intro t; unfold cancelLive; split <;> rfl
+        have : v.blockers = u.blockers := by
+          have hs : step u a = some v := hs
+          cases a <;> simp only [step] at hs
+          all_goals
+            repeat' (split at hs)
+            all_goals first
+              | (cases hs; done)
+              | (cases hs; rfl)
+              | (cases hs; simp only [hbb, hcb]; done)
+              | (cases hs; exact hbb _ _ _)
+              | (cases hs; exact hcb _)
+              | (cases hs; split <;> rfl)
+        rw [this]; exact ih
+    exact this s h
+  -- who can hold the mutex
+  have hmuNone : (∀ p, s.run ≠ .stopping p) → (∀ p c, s.run ≠ .failStopping p c) → (∀ cfg p, s.rl ≠ .stopping cfg p) → s.mu = none := by
+    intro a1 a2 a3
+    cases hm : s.mu with
+    | none => rfl
+    | some o =>
+      cases o with
+      | run =>
+        rcases h4.muRun.mp hm with ⟨p, hp⟩ | ⟨p, c, hp⟩
+        · exact absurd hp (a1 p)
+        · exact absurd hp (a2 p c)
+      | reload =>
+        obtain ⟨cfg, p, hp⟩ := h4.muRl.mp hm
+        exact absurd hp (a3 cfg p)
+  -- if the reload holds the mutex it can finish its stop phase
+  have hrlProgress : ∀ cfg p, s.rl = .stopping cfg p → ∃ a ∈ progressActs s, (step s a).isSome = true := by
+    intro cfg p hp
+    cases p with
+    | nil => exact ⟨.rlStopEnd, by simp [progressActs], by simp [step, hp]⟩
+    | cons c rest =>
+      refine ⟨.childStopRet c, by simp [progressActs, hp], ?_⟩
+      have hnr1 : ∀ q, s.run ≠ .stopping q := fun q hq => by
+        have := h4.muRun.mpr (Or.inl ⟨q, hq⟩)
+        have := h4.muRl.mpr ⟨cfg, c :: rest, hp⟩
+        simp_all
+      have hnr2 : ∀ q e, s.run ≠ .failStopping q e := fun q e hq => by
+        have := h4.muRun.mpr (Or.inr ⟨q, e, hq⟩)
+        have := h4.muRl.mpr ⟨cfg, c :: rest, hp⟩
+        simp_all
+      simp only [step, hb, hp]
+      split <;> first
+        | (simp; done)
+        | (rename_i hq; exact absurd hq (hnr1 _))
+        | (rename_i hq; exact absurd hq (hnr2 _ _))
+        | (rename_i hx; exact absurd rfl (hx _))
+        | (rename_i hx; exact (hx _).elim)
+        | (rename_i hx; exact absurd (by simp) hx)
+  by_cases hrl : ∃ cfg p, s.rl = .stopping cfg p
+  · obtain ⟨cfg, p, hp⟩ := hrl
+    exact hrlProgress cfg p hp
+  · have hrl' : ∀ cfg p, s.rl ≠ .stopping cfg p := fun cfg p hp => hrl ⟨cfg, p, hp⟩
+    cases hr : s.run with
+    | idle =>
+      have hm := hmuNone (by simp [hr]) (by simp [hr]) hrl'
+      refine ⟨.runEnter, by simp [progressActs], ?_⟩
+      simp only [step, hr, hm]
+      cases tr s .booting <;> simp
+    | entered =>
+      have hm := hmuNone (by simp [hr]) (by simp [hr]) hrl'
+      refine ⟨.runBoot (.ok []), by simp [progressActs], ?_⟩
+      simp only [step, hr, hm]
+      cases s.cfg <;> simp
+    | booted =>
+      refine ⟨.runToRunning, by simp [progressActs], ?_⟩
+      simp only [step, hr]
+      cases tr s .running <;> simp
+    | select => exact ⟨.runSelStop, by simp [progressActs], by simp [step, hr, hstop]⟩
+    | afterSelect => exact ⟨.runToStopping, by simp [progressActs], by simp [step, hr]⟩
+    | toStop =>
+      have hm := hmuNone (by simp [hr]) (by simp [hr]) hrl'
+      have hcfg : s.cfg ≠ none := fun hc => by
+        rcases h4.cfg hc with h1 | h1 | ⟨r, h1⟩ <;> rw [hr] at h1 <;> cases h1
+      refine ⟨.runStopBegin, by simp [progressActs], ?_⟩
+      simp only [step, hr, hm]
+      cases hc : s.cfg with
+      | none => exact absurd hc hcfg
+      | some c => simp
+    | failToStop c =>
+      have hm := hmuNone (by simp [hr]) (by simp [hr]) hrl'
+      have hcfg : s.cfg ≠ none := fun hc => by
+        rcases h4.cfg hc with h1 | h1 | ⟨r, h1⟩ <;> rw [hr] at h1 <;> cases h1
+      refine ⟨.runStopBegin, by simp [progressActs], ?_⟩
+      simp only [step, hr, hm]
+      cases hc : s.cfg with
+      | none => exact absurd hc hcfg
+      | some c => simp
+    | stopping p =>
+      cases p with
+      | nil => exact ⟨.runStopEnd, by simp [progressActs], by simp [step, hr]⟩
+      | cons c rest => exact ⟨.childStopRet c, by simp [progressActs, hr], by simp [step, hr, hb]⟩
+    | failStopping p e =>
+      cases p with
+      | nil => exact ⟨.runStopEnd, by simp [progressActs], by simp [step, hr]⟩
+      | cons c rest => exact ⟨.childStopRet c, by simp [progressActs, hr], by simp [step, hr, hb]⟩
+    | stopped =>
+      refine ⟨.runFinish, by simp [progressActs], ?_⟩
+      simp only [step, hr]
+      cases tr s .stopped <;> simp
+    | returned r => exact absurd hr (hnot r)
 
 end GoSup.Props.C09L
